@@ -164,7 +164,7 @@ class C15(Check):
             'map/shared-cache records, samples with header count {0,1,3,4,5,9,14} x {0,1,2(+)} data records whose words are a-1, a, '
             'a+1 for every load address plus 0 and 2^64-1, a sample without the user-stack flag, a sample on a second thread; '
             'through TracesParser+CallstacksParser (all histories) and through PyKdebugParser.callstacks on a v2 dump (histories '
-            '<=2 quick / <=3 thorough). Plus: for every set of <=4 distinct images all permutations of announcement order give '
+            '<=2 quick / <=3 thorough). Plus all alternating histories announcement-sample-announcement-sample (depth 4) over every announcement and the samples with >=4 frames. Plus: for every set of <=4 distinct images all permutations of announcement order give '
             'identical attribution. Reference: linear scan over the list of announced (address, uuid), first identity wins. '
             'states = distinct announced-image lists; transitions = events fed; non-trivial = history with >=1 announcement before a sample.')
     assumptions = ('a nested shared-cache-map record is registered when its launch window closes; no sample is placed inside a launch '
@@ -178,6 +178,8 @@ class C15(Check):
         out = [('layers', L, i) for i in range(len(ITEMS))]
         out += [('facade', L - 1, i) for i in range(len(ITEMS))]
         out.append(('perm',))
+        imgs = [i for i, it in enumerate(ITEMS) if it[0] in ('img', 'launch')]
+        out += [('alt', i) for i in imgs]
         return out
 
     def run_shard(self, desc, acc):
@@ -196,6 +198,20 @@ class C15(Check):
                         acc.violation(bad[0], {'kind': 'hist', 'seq': list(seq), 'via': via, 'readable': [str(ITEMS[i][:3]) for i in seq]}, bad[1])
                     elif acc.want_sample() and nontrivial and len(seq) == 3:
                         acc.sample({'history': [str(ITEMS[i][:3]) for i in seq], 'via': via})
+        elif desc[0] == 'alt':
+            # announcement, sample, announcement, sample (depth 4) - a resolution remembered from the first sample must not survive
+            # the second announcement
+            imgs = [i for i, it in enumerate(ITEMS) if it[0] in ('img', 'launch')]
+            samps = [i for i, it in enumerate(ITEMS) if it[0] == 'samp' and it[1] >= 4 and len(it[2]) >= 4] + \
+                    [i for i, it in enumerate(ITEMS) if it[0] == 'samp-tid2']
+            for s1 in samps:
+                for i2 in imgs:
+                    for s2 in samps:
+                        seq = (desc[1], s1, i2, s2)
+                        bad = judge(seq, 'layers')
+                        acc.case(nontrivial=True, transitions=sum(len(events_of(ITEMS[i])) for i in seq), outcome=None)
+                        if bad:
+                            acc.violation(bad[0], {'kind': 'hist', 'seq': list(seq), 'via': 'layers', 'readable': [str(ITEMS[i][:3]) for i in seq]}, bad[1])
         else:
             sets = []
             pool = [(a, 0) for a in ADDR] + [(0x2800, 1)]
